@@ -365,7 +365,15 @@ Record wf (j : jstate) : Prop := {
   wf_al : ∀ a, al_loc j a;
   wf_logs : ∀ th, j_logs j !! th ≠ Some [];
   wf_tstor : ∀ k x, j_tstor j !! k = Some x → x ≠ 0;
-  wf_dirty : ∀ a o k d, j_objs j !! a = Some o → o_dirty o !! k = Some d → d ≠ committed j a o k
+  wf_dirty : ∀ a o k d, j_objs j !! a = Some o → o_dirty o !! k = Some d → d ≠ committed j a o k;
+  (* access-list indices are not shared *)
+  wf_alinj : ∀ a a' idx, j_ala j !! a = Some idx → j_ala j !! a' = Some idx → (0 ≤ idx)%Z → a = a';
+  (* an object without origin stands for an account that is absent from the reader's view *)
+  wf_origin : ∀ a o, j_objs j !! a = Some o → o_origin o = None → a ∈ j_destruct j ∨ j_db j !! a = None;
+  (* eager loading: no live object = destructed in this block, or absent from the pre-state *)
+  wf_eager : ∀ a, j_objs j !! a = None → a ∈ j_destruct j ∨ j_db j !! a = None;
+  (* dirty storage implies a live journal entry *)
+  wf_dirtymut : ∀ a o, j_objs j !! a = Some o → o_dirty o ≠ ∅ → a ∈ dom (j_muts j)
 }.
 
 Definition core_op (o : op) : bool :=
@@ -536,6 +544,10 @@ Proof.
   - intros th. by rewrite lookup_empty.
   - intros k x. by rewrite lookup_empty.
   - intros a o k d (x & <- & _)%lookup_fmap_Some Hd. simpl in Hd. by apply lookup_empty_Some in Hd.
+  - intros a a' idx. by rewrite lookup_empty.
+  - intros a o (x & <- & _)%lookup_fmap_Some. done.
+  - intros a. rewrite lookup_fmap fmap_None. by right.
+  - intros a o (x & <- & _)%lookup_fmap_Some. done.
 Qed.
 
 (* ------------------------------------------------------------------ *)
